@@ -24,6 +24,8 @@ def eval_expr(e, env, roles=None):
     sh = q.shape(e, roles)
     if sh in env:
         return env[sh]
+    if isinstance(e, Var) and getattr(env, "store", None) is not None and e.local in env.store:
+        return env.store[e.local]
     if isinstance(e, Named):
         return eval_expr(e.x, env, roles)
     if isinstance(e, (Ref, Deref)):
@@ -88,25 +90,50 @@ def eval_expr(e, env, roles=None):
 
 
 def reach(body, start, env, roles=None, stop=(), kill_on_call=None):
-    """Blocks reachable from `start` under env. `stop`: blocks not expanded (still included).
-    kill_on_call(t) -> True makes the environment unknown after that call (tracked value may
-    have changed): the walk continues with an empty environment from there."""
+    """Blocks reachable from `start` under env, with path-sensitive constant propagation for
+    locals that are assigned evaluable values on the way (e.g. the bool temporaries of `||`
+    chains). `stop`: blocks not expanded (still included). kill_on_call(t) -> True makes the
+    environment unknown after that call: the walk continues without it from there."""
     seen = set()
-    dq = deque([(start, True)])
+    out = set()
+    dq = deque([(start, True, frozenset())])
     stop = set(stop)
     while dq:
-        b, known = dq.popleft()
-        if (b, known) in seen:
+        state = dq.popleft()
+        if state in seen:
             continue
-        seen.add((b, known))
+        seen.add(state)
+        b, known, store = state
+        out.add(b)
         if b in stop:
             continue
-        t = body.blocks[b]["term"]
+        st = dict(store)
+        cur_env = _StoreEnv(env if known else {}, st)
+        blk = body.blocks[b]
+        for s in blk["stmts"]:
+            if s["k"] == "assign" and not s["place"]["p"]:
+                l = s["place"]["l"]
+                if len(body.defs.get(l, [])) > 1 or body.var_names.get(l) is not None and body.locals[l]["mut"]:
+                    v = eval_expr(body.expr_of_rvalue(s["rv"]), cur_env, roles)
+                    if v is None:
+                        st.pop(l, None)
+                    else:
+                        st[l] = v
+        t = blk["term"]
         nxt_known = known
         if known and kill_on_call is not None and t["k"] == "call" and kill_on_call(t):
             nxt_known = False
-        if t["k"] == "switch" and known:
-            v = eval_expr(body.expr_of_operand(t["discr"]), env, roles)
+        if t["k"] == "call" and not t["dest"]["p"]:
+            l = t["dest"]["l"]
+            if len(body.defs.get(l, [])) > 1:
+                v = eval_expr(body.expr_of_call(t), cur_env, roles)
+                if v is None:
+                    st.pop(l, None)
+                else:
+                    st[l] = v
+        fs = frozenset(st.items())
+        if t["k"] == "switch":
+            v = eval_expr(body.expr_of_operand(t["discr"]), cur_env, roles)
             if v is not None:
                 tgt = None
                 for val, tb in t["arms"]:
@@ -114,11 +141,26 @@ def reach(body, start, env, roles=None, stop=(), kill_on_call=None):
                         tgt = tb
                 if tgt is None:
                     tgt = t["otherwise"]
-                dq.append((tgt, nxt_known))
+                dq.append((tgt, nxt_known, fs))
                 continue
-        for s in body.succ[b]:
-            dq.append((s, nxt_known))
-    return set(b for b, _ in seen)
+        for sx in body.succ[b]:
+            dq.append((sx, nxt_known, fs))
+    return out
+
+
+class _StoreEnv(dict):
+    """env (shape -> value) extended with a store (local index -> value) for multi-def locals."""
+
+    def __init__(self, env, store):
+        super().__init__(env)
+        self.store = store
+        self.base = env
+
+    def __contains__(self, k):
+        return k in self.base
+
+    def __getitem__(self, k):
+        return self.base[k]
 
 
 def decided_switches(body, start, env, roles=None):
